@@ -157,7 +157,32 @@ def build(world):
     return datas
 
 
+def rejoin(datas, edges):
+    """Join the same pair of tables again (other columns, other shape, other direction): the join registered
+    last replaces the earlier one on both tables."""
+    for a, ca, b, cb, how in edges:
+        one = lambda c: c[0] if len(c) == 1 else tuple(c)
+        if how == 'fwd':
+            datas[a].join_on_key(datas[b], one(ca), one(cb))
+        elif how == 'rev':
+            datas[b].join_on_key(datas[a], one(cb), one(ca))
+        else:
+            raise core.EngineError('bad rejoin edge %r' % (how,))
+
+
 def make_state(datas, world, q):
+    """worlds with queries['reuse_states']: one state object per (table, kind, rows), kept for the life of the
+    objects, as a subset group keeps its state while the user changes the joins."""
+    if world['queries'].get('reuse_states') and q['sel'] in ('elem', 'mask'):
+        key = (q['s'], q['sel'], tuple(q['rows']))
+        states = datas.setdefault('_states', {})
+        if key not in states:
+            states[key] = _make_state(datas, world, q)
+        return states[key]
+    return _make_state(datas, world, q)
+
+
+def _make_state(datas, world, q):
     from glue.core.subset import ElementSubsetState, MaskSubsetState
     sel = q['sel']
     if sel == 'uneval-ineq':
@@ -234,7 +259,7 @@ def expected_mask(world, q):
 
 # ----------------------------------------------------------------------------- class signature
 def signature(world):
-    if '_sig' not in world:
+    if world.get('_sig') is None:
         world['_sig'] = _signature(world)
     return world['_sig']
 
@@ -263,9 +288,19 @@ def _signature(world):
 
 
 # ----------------------------------------------------------------------------- one evaluation
+def current(world, q):
+    """the world as the oracle must see it at query q: the joins in place are those of q's phase"""
+    if 'edges' in q:
+        return dict(world, edges=q['edges'], _sig=None) if q['edges'] != world['edges'] else world
+    return world
+
+
 def evaluate(datas, world, q):
     """-> ('mask', array) | ('incompatible',) | ('raises', type name, repr) | ('nonterm', what)"""
     from glue.core.exceptions import IncompatibleAttribute
+    if 'edges' in q and datas.get('_edges', world['edges']) != q['edges']:
+        rejoin(datas, q['edges'])
+        datas['_edges'] = q['edges']
     state = make_state(datas, world, q)
     try:
         with guard():
@@ -284,6 +319,7 @@ def evaluate(datas, world, q):
 def judge(world, q, out):
     """-> (bad, nontrivial): bad is None if the property holds for this evaluation, else
     (clause, key, observed, expected)"""
+    world = current(world, q)
     sig = signature(world)
     fam = world.get('family', '')
     topo = 'cycle' if fam == 'cycle' else ('chain' if len(world['nodes']) > 2 else 'pair')
@@ -336,6 +372,10 @@ def queries(world):
             for rows in rowsets:
                 for v in vs:
                     out.append(dict(t=t, s=s, rows=rows, sel=sel, view=v))
+    if 'phases' in qs:
+        # the same queries once per phase; every query names the joins in place when it is asked, and the real
+        # objects are re-joined when the joins named differ from those in place
+        out = [dict(q, edges=edges) for edges in qs['phases'] for q in out]
     return out
 
 
@@ -487,6 +527,30 @@ def fam_reg(spec, pal):
             yield pair_world('reg', shape, ['i64'], lt, rt, pal, reg=reg, qs=qs)
 
 
+REJOIN = {'a': (['k0'], ['k0']), 'b': (['k1'], ['k1']), 'x': (['k0'], ['k1']), 'nn': (['k0', 'k1'], ['k0', 'k1']),
+          '1n': (['k0'], ['k0', 'k1']), 'n1': (['k0', 'k1'], ['k0'])}
+
+
+def fam_rejoin(spec, pal):
+    """The same pair joined, queried, joined again on other columns / with another shape / from the other side,
+    queried again with the SAME state objects, and joined back: the mask must follow the join in place.
+    ('flag' selections change values, which legitimately empties every cache: they get worlds of their own so
+    that the kept 'elem' / 'mask' state objects meet whatever was remembered under the earlier join.)"""
+    _, first, second, reg2, nl, nr, sels = spec
+
+    def edge(name, how):
+        cl, cr = REJOIN[name]
+        return ['L', cl, 'R', cr, how]
+    phases = [[edge(first, 'fwd')], [edge(second, reg2)], [edge(first, 'fwd')]]
+    qs = dict(pairs=[['L', 'R'], ['R', 'L']], sels=list(sels), views='none', reuse_states=True,
+              phases=phases)
+    for lt in tables(2, nl, 2):
+        for rt in tables(2, nr, 2):
+            w = pair_world('rejoin', 'n-n', ['i64'], lt, rt, pal, qs=qs)
+            w['edges'] = phases[0]
+            yield w
+
+
 def fam_shape2d(spec, pal):
     _, shape, cfg, lshape, nr = spec
     ncl, ncr = NCOLS[shape]
@@ -592,7 +656,7 @@ def fam_cycle(spec, pal):
                 yield dict(family='cycle', nodes=nd, edges=ed, queries=qs)
 
 
-FAMS = dict(large=fam_large, tables=fam_tables, dtypes=fam_dtypes, reg=fam_reg, shape2d=fam_shape2d, chain=fam_chain,
+FAMS = dict(large=fam_large, tables=fam_tables, dtypes=fam_dtypes, reg=fam_reg, shape2d=fam_shape2d, chain=fam_chain, rejoin=fam_rejoin,
             tree=fam_tree, cycle=fam_cycle)
 
 ALLCFG = ['i64', 'i64/32', 'i32/64', 'f64', 'f64/32', 'f64-0', 'str', 'str/U5']
@@ -641,6 +705,16 @@ def families(tier):
     for shape in ('1-1', 'n-n', '1-n', 'n-1'):
         for reg in ('fwd', 'rev') + (('link',) if shape == '1-1' else ()):
             S.append(('reg', shape, reg))
+    # re-joining the same pair (state objects kept across the phases)
+    for first, second in itertools.permutations(sorted(REJOIN), 2):
+        for reg2 in ('fwd', 'rev'):
+            if t or reg2 == 'fwd' or (first, second) in (('a', 'b'), ('nn', '1n')):
+                S.append(('rejoin', first, second, reg2, 2, 2, ('elem', 'mask')))
+    if t:
+        S.append(('rejoin', 'a', 'b', 'fwd', 3, 2, ('elem', 'mask')))
+        S.append(('rejoin', 'nn', 'a', 'rev', 2, 3, ('elem', 'mask')))
+    S.append(('rejoin', 'a', 'b', 'fwd', 2, 2, ('flag',)))
+    S.append(('rejoin', 'nn', '1n', 'rev', 2, 2, ('flag',)))
     # 2-d tables
     for shape in ('1-1', 'n-n', '1-n', 'n-1'):
         S.append(('shape2d', shape, 'i64', (2, 1), 2))
